@@ -192,14 +192,19 @@ Definition body_none : body := fun g => (g, v0, []).
 Definition a_begin : G -> G * V * list ev := fun g => (g, v0, [EvAcc KBegin [] true]).
 
 (** try_lock's exchange; when it acquires the lock the plain code [bd] that follows runs in the same step *)
+Definition unbusy (v : V) : V := mkV false (vn v) (vb v) (vi v) (verr v).
 Definition a_lock (l : nat) (bd : body) : G -> G * V * list ev :=
   fun g =>
     if lockbit g l then (g, vbusyV, [EvAcc KXchg (obj_lock l) true])
-    else let '(g', v, es) := bd (set_lockbit g l true) in (g', v, EvAcc KXchg (obj_lock l) true :: es).
+    else let '(g', v, es) := bd (set_lockbit g l true) in (g', unbusy v, EvAcc KXchg (obj_lock l) true :: es).
 Definition a_load (l : nat) : G -> G * V * list ev :=
   fun g => (g, (if lockbit g l then vbusyV else v0), [EvAcc KLd (obj_lock l) true]).
+(** unlock's store followed by the plain code [bd] up to the next access.  The whole is one indivisible step
+    and [bd] never looks at lock bits, so the order in which the step's two effects are applied to [G] cannot be
+    observed; [bd] is applied first because that makes the step the composition of two invariant-preserving
+    halves (plain code under the lock, then the release). *)
 Definition a_unlock (l : nat) (bd : body) : G -> G * V * list ev :=
-  fun g => let '(g', v, es) := bd (set_lockbit g l false) in (g', v, EvAcc KSt (obj_lock l) true :: es).
+  fun g => let '(g', v, es) := bd g in (set_lockbit g' l false, v, EvAcc KSt (obj_lock l) true :: es).
 
 (** spin_lock::lock(): while ( !try_lock()) { while ( m_spin.load()) backoff(); }   [None] = out of fuel *)
 Fixpoint lock_outer (fuel : nat) (l : nat) (bd : body) : prog (option V) :=
